@@ -3,7 +3,7 @@ CONSTANTS
   MaxKids = 2
   Places = {"direct", "wrapped", "nested", "encwrap"}
   Slot2Places = {"direct"}
-  Slot2Sigs = {"none", "own"}
+  Slot2Sigs = {"none", "own", "att"}
   RIds = {"r1", "rX", "a1"}
   RSigs = {"none", "att", "attIdp", "gen", "lifted", "reloc", "malformed"}
   KidSigs = {"none", "own", "copied", "att", "attIdp"}
